@@ -36,6 +36,7 @@ def explore(res, rng, n, exhaustive=None):
     cyc.micro_stream(res, ['rainflow', 'rangepair', 'repeat', 'fourpoint'], rng, max(30, n // 25))
     cyc.extreme_scale_stream(res, ['rainflow', 'rangepair', 'repeat', 'fourpoint'], rng, max(12, n // 60))
     cyc.narrow_dtype_stream(res, ['rainflow', 'rangepair', 'repeat', 'fourpoint'], rng, max(10, n // 80))
+    cyc.config_cycles_stream(res, ['rainflow', 'rangepair', 'repeat', 'fourpoint'], rng, max(16, n // 60))
     cyc.caller_array_stream(res, ['rainflow', 'rangepair', 'repeat', 'fourpoint'], rng, max(15, n // 60))
     reqs, meta = [], []
     for idx, (h, s) in enumerate(cases):
